@@ -37,9 +37,17 @@ let run_a (live : bool) (ops : string list) : string =
   (* the remote backup directory is keyed by (term, index) only: what a snapshot apply finds there is what was copied last *)
   let prepared : (string * string, journal) Hashtbl.t = Hashtbl.create 4 in
   let push s = obs := s :: !obs in
+  let restarted = ref false in
+  let focus = ref None in   (* live cases: the snapshot the last request was about, asked through GetApplySnapStatus *)
   let observe r =
-    push (Printf.sprintf "%s;%s;%d;%s" (res_str r) (synced_str !nd.n_cur.r_synced) (List.length !nd.n_cur.r_journal)
-            (if live then "-" else snaps_str !nd.n_snaps)) in
+    let fourth =
+      if not live then snaps_str !nd.n_snaps
+      else match !focus with
+        | Some (c, t, i) when not !restarted -> "g" ^ dec_of_n (apply_status_rsp !nd c t i)
+        | _ -> "-" in
+    focus := None;
+    push (Printf.sprintf "%s;%s;%d;%s" (res_str r) (synced_str !nd.n_cur.r_synced) (List.length !nd.n_cur.r_journal) fourth) in
+  let wrap o = if live then OSnapRpc o else o in
   let src_prefix c k = List.filteri (fun i _ -> i < k) (Hashtbl.find srcs c) in
   let kth c k = List.nth (Hashtbl.find srcs c) (k - 1) in
   let do_op o = let (nd', r) = step !nd o in nd := nd'; observe r in
@@ -52,7 +60,7 @@ let run_a (live : bool) (ops : string list) : string =
     | ["X"] -> do_op OLose
     | ["L"; p] -> do_op (OLocal (n_of_dec p))
     | ["S"] -> do_op OSnap
-    | ["R"; _] -> do_op ORestart
+    | ["R"; _] -> restarted := true; do_op ORestart
     | "W" :: c :: rest ->
       let ci = int_of_string c in
       if ci > !maxc then maxc := ci;
@@ -64,7 +72,8 @@ let run_a (live : bool) (ops : string list) : string =
       let ci = int_of_string c in
       if ci > !maxc then maxc := ci;
       let e = kth ci (int_of_string k) in
-      do_op (OXfer (n_of_dec c, e.s_term, e.s_index))
+      focus := Some (n_of_dec c, e.s_term, e.s_index);
+      do_op (wrap (OXfer (n_of_dec c, e.s_term, e.s_index)))
     | ["P"; c; k; f] ->
       let ci = int_of_string c and ki = int_of_string k in
       if ci > !maxc then maxc := ci;
@@ -72,12 +81,14 @@ let run_a (live : bool) (ops : string list) : string =
       let key = (dec_of_n e.s_term, dec_of_n e.s_index) in
       if f = "-" then Hashtbl.replace prepared key (List.map (fun x -> (x.s_cluster, x.s_payload)) (src_prefix ci ki));
       let content = Hashtbl.find_opt prepared key in
-      do_op (OSnapReq (n_of_dec c, e.s_term, e.s_index, content))
+      focus := Some (n_of_dec c, e.s_term, e.s_index);
+      do_op (wrap (OSnapReq (n_of_dec c, e.s_term, e.s_index, content)))
     | ["K"; c; k] ->
       let ci = int_of_string c in
       if ci > !maxc then maxc := ci;
       let e = kth ci (int_of_string k) in
-      do_op (OSkipReq (n_of_dec c, e.s_term, e.s_index))
+      focus := Some (n_of_dec c, e.s_term, e.s_index);
+      do_op (wrap (OSkipReq (n_of_dec c, e.s_term, e.s_index)))
     | "B" :: ents ->
       (* B:c.t.i.ts.p.f:...  one ApplyRaftReqs call *)
       let b = List.map (fun e -> match split_on '.' e with
